@@ -12,6 +12,7 @@ import (
 	"sort"
 	"strconv"
 	"strings"
+	"time"
 )
 
 type profile struct {
@@ -73,6 +74,7 @@ type genSt struct {
 	ro       bool
 	high     map[int]uint64
 	waiter   int // saver blocked in saveLock.Lock() (0 = none)
+	hung     bool
 }
 
 const prefixHex = "5f636f6e6e6563746f723a6362676f3a"
@@ -82,10 +84,29 @@ func (g *genSt) do(op string) string {
 	if os.Getenv("VERIF_DEBUG") != "" {
 		fmt.Fprintln(os.Stderr, "OP", op)
 	}
-	real := g.e.exec(op)
+	real := g.execGuarded(op)
 	g.c.E.Line(op, real)
 	g.ops++
 	return real
+}
+
+// a changed implementation may block where the unchanged one cannot: an op that does not come back within 8 s is
+// reported as `hang`, the case is abandoned (its goroutine leaks) and the stream goes on with the next case
+func (g *genSt) execGuarded(op string) string {
+	if g.hung {
+		return "-"
+	}
+	ch := make(chan string, 1)
+	go func() { ch <- g.e.exec(op) }()
+	select {
+	case r := <-ch:
+		return r
+	case <-time.After(8 * time.Second):
+		g.hung = true
+		g.open = false
+		sessionHangs++
+		return "hang"
+	}
 }
 
 func (g *genSt) randKey() string {
@@ -729,14 +750,16 @@ func genCase(c *Ctx, p profile) {
 			g.query()
 		}
 	}
-	if g.open {
+	if g.open && !g.hung {
 		g.drainSavers(false)
 		if len(g.savers) == 0 && !g.lock {
 			g.do("save ok")
 		}
 		g.do("offsets")
 	}
-	g.e.cleanup()
+	if !g.hung {
+		g.e.cleanup()
+	}
 	var tags []string
 	for t := range g.tags {
 		tags = append(tags, t)
@@ -758,7 +781,7 @@ func runSession(c *Ctx, name string) {
 	}
 	p := profiles[name]
 	n := c.N(400, 20000)
-	for i := 0; i < n; i++ {
+	for i := 0; i < n && sessionHangs < 3; i++ { // three hung cases are evidence enough: do not wait 8 s for every further one
 		genCase(c, p)
 	}
 }
@@ -794,6 +817,8 @@ func replaySession(c *Ctx) {
 		c.E.EndCase(true, "replay")
 	}
 }
+
+var sessionHangs int
 
 // readOpLines returns the op part of every non-empty line of a replay file
 func readOpLines(path string) []string {
